@@ -21,6 +21,9 @@ for p in sorted(glob.glob(os.path.join(ROOT, "evidence", "C*.json"))):
             continue
         cur = fns.get(f["function"])
         if cur is None or len(f["discharged_names"]) > len(cur["discharged"]):
-            fns[f["function"]] = {"sha": f["source_sha256_16"], "discharged": f["discharged_names"]}
+            # complete: every obligation generated for the baseline text was discharged (then an obligation that only exists
+            # for a changed text - e.g. a no-escape obligation on a path that was infeasible before - counts as one that
+            # held for the baseline text)
+            fns[f["function"]] = {"sha": f["source_sha256_16"], "discharged": f["discharged_names"], "complete": f.get("obligations") == f.get("discharged")}
 json.dump({"contracts_digest": contracts_digest(), "functions": fns}, open(os.path.join(ROOT, "baseline.json"), "w"), indent=0, sort_keys=True)
 print("baseline.json: %d functions" % len(fns))
